@@ -108,10 +108,12 @@ Data(w, sn) ==
   /\ UNCHANGED <<rhb, sac, asm, lastRead, latestIdx, dsc>>
   /\ Log([a |-> "Data", w |-> w, sn |-> sn])
 
-DataFrag(w, sn, f) ==
+\* DATAFRAG carrying fragments f .. f+fc-1
+DataFrag(w, sn, f, fc) ==
   /\ sn \in FragSNs
+  /\ f + fc - 1 <= NFrags
   /\ LET old  == IF sn \in DOMAIN asm[w] THEN asm[w][sn] ELSE {}
-         seen == old \cup {f}
+         seen == old \cup (f .. (f + fc - 1))
          done == seen = 1..NFrags
          r    == IF done THEN Received(w, sn) ELSE <<ab[w], chg[w], cache, nidx, marker[w]>>
      IN /\ asm' = [asm EXCEPT ![w] =
@@ -122,9 +124,9 @@ DataFrag(w, sn, f) ==
         /\ cache' = r[3]
         /\ nidx' = r[4]
         /\ marker' = [marker EXCEPT ![w] = r[5]]
-  /\ AbsDataFrag(w, sn, f, 1, NFrags, sn, sn)
+  /\ AbsDataFrag(w, sn, f, fc, NFrags, sn, sn)
   /\ UNCHANGED <<rhb, sac, lastRead, latestIdx, dsc>>
-  /\ Log([a |-> "DataFrag", w |-> w, sn |-> sn, fs |-> f, fc |-> 1, tot |-> NFrags])
+  /\ Log([a |-> "DataFrag", w |-> w, sn |-> sn, fs |-> f, fc |-> fc, tot |-> NFrags])
 
 (* ---- RtpsWriterProxy.irrelevant_changes_range(from, until) ---- *)
 \* returns <<ab', chg'>>
@@ -209,7 +211,7 @@ Take(max) ==
 Next ==
   \/ \E w \in Writers : Match(w) \/ Unmatch(w)
   \/ \E w \in Writers, sn \in SNs : Data(w, sn)
-  \/ \E w \in Writers, sn \in FragSNs, f \in 1..NFrags : DataFrag(w, sn, f)
+  \/ \E w \in Writers, sn \in FragSNs, f \in 1..NFrags, fc \in 1..NFrags : DataFrag(w, sn, f, fc)
   \/ \E w \in Writers, first \in 0..(MaxSN + 1), last \in 0..MaxSN, fresh \in BOOLEAN, final \in BOOLEAN :
         Heartbeat(w, first, last, IF fresh THEN rhb[w] + 1 ELSE rhb[w], final)
   \/ \E w \in Writers, start \in 1..MaxSN, base \in 1..(MaxSN + 1) :
